@@ -97,6 +97,12 @@ impl Fault {
 pub struct Plan {
     /// Selected offsets (sorted).
     pub offsets: Vec<usize>,
+    /// Per selected offset: does the substitution alphabet apply there (bit
+    /// flips, truncation, deletion and duplication always do).
+    pub alpha: Vec<bool>,
+    /// Per selected offset: is the accessor / Debug digest of `Ok` values
+    /// computed for faults at this offset (otherwise `Ok` has a constant digest).
+    pub digest: Vec<bool>,
     /// Whether every offset of the seed is selected.
     pub full: bool,
     pub text: bool,
@@ -124,8 +130,8 @@ impl Plan {
         let mut v = Vec::with_capacity(self.slots());
         // a truncation to the full length is the unfaulted artefact
         v.push(Some(Fault::Trunc(o)));
-        let mut repl = |val: u8, v: &mut Vec<Option<Fault>>| {
-            if seen[val as usize] {
+        let mut repl = |val: u8, on: bool, v: &mut Vec<Option<Fault>>| {
+            if seen[val as usize] || !on {
                 v.push(None);
             } else {
                 seen[val as usize] = true;
@@ -133,14 +139,14 @@ impl Plan {
             }
         };
         for bit in 0..8 {
-            repl(x ^ (1 << bit), &mut v);
+            repl(x ^ (1 << bit), true, &mut v);
         }
         for a in alphabet(x) {
-            repl(a, &mut v);
+            repl(a, self.alpha[oi], &mut v);
         }
         if self.text {
             for c in 0x20u8..0x7f {
-                repl(c, &mut v);
+                repl(c, true, &mut v);
             }
         }
         v.push(Some(Fault::Delete(o)));
@@ -154,31 +160,62 @@ pub struct Tuning {
     pub thorough: bool,
 }
 
-/// Seeds up to this size are always swept at every offset.
+/// Seeds up to this size are swept at every offset with the full alphabet and
+/// the full digest in both tiers.
 pub const FULL_LIMIT: usize = 4096;
+/// thorough: seeds up to this size are swept at every offset with the full
+/// alphabet; larger ones get the substitution alphabet at item-boundary
+/// offsets only (truncation, bit flips, deletion, duplication everywhere).
+pub const THOROUGH_ALPHA_LIMIT: usize = 48 * 1024;
+/// thorough: seeds larger than this (genesis.block) are swept at item-boundary
+/// offsets only, and the accessor digest is taken at every 16th of them.
+pub const THOROUGH_FULL_LIMIT: usize = 200 * 1024;
+/// quick: of the blocks cut out of the immutable-DB chunk files, every
+/// `QUICK_CHUNK_BLOCK_STRIDE`-th (by index inside its chunk) is swept.
+pub const QUICK_CHUNK_BLOCK_STRIDE: usize = 16;
+/// quick: a seed of n > 4096 bytes is swept at every k-th item-boundary offset
+/// (by rank), k = max(1, n / QUICK_STRIDE_UNIT).
+pub const QUICK_STRIDE_UNIT: usize = 4096;
+
+pub fn is_chunk_block(seed: &Seed) -> bool {
+    seed.family == "block" && seed.name.contains(".chunk#")
+}
+fn chunk_index(seed: &Seed) -> usize {
+    seed.name.rsplit('#').next().and_then(|x| x.parse().ok()).unwrap_or(0)
+}
+fn is_message(seed: &Seed) -> bool {
+    seed.family.starts_with("msg:")
+}
 
 impl Tuning {
-    /// Offsets selected for a seed.
-    ///
-    /// thorough: every offset of every seed, except `genesis.block` (648 KiB,
-    /// one decode ~ 1 ms): item boundaries only.
-    /// quick: every offset of seeds <= 4 KiB; larger seeds at item boundaries
-    /// only, and of those boundary offsets every `stride`-th (see
-    /// `quick_stride`), chunk-file blocks included.
+    /// Offsets, alphabet and digest selection for a seed (see the constants).
     pub fn plan(&self, seed: &Seed) -> Plan {
         let n = seed.bytes.len();
-        let full = n <= FULL_LIMIT || (self.thorough && n <= THOROUGH_FULL_LIMIT);
-        let offsets: Vec<usize> = if full {
-            (0..n).collect()
-        } else {
-            let b = seeds::boundary_offsets(&seed.bytes);
-            let stride = if self.thorough { 1 } else { quick_stride(seed) };
-            // deterministic thinning: keep boundary offsets whose rank is a
-            // multiple of the stride, plus the last one
-            let last = b.len().saturating_sub(1);
-            b.iter().enumerate().filter(|(i, _)| i % stride == 0 || *i == last).map(|x| *x.1).collect()
-        };
-        Plan { offsets, full, text: seed.text, entries: seed.entries.len() }
+        let empty = Plan { offsets: vec![], alpha: vec![], digest: vec![], full: false, text: seed.text, entries: seed.entries.len() };
+        if !self.thorough && is_chunk_block(seed) && chunk_index(seed) % QUICK_CHUNK_BLOCK_STRIDE != 0 {
+            return empty;
+        }
+        if n <= FULL_LIMIT {
+            return Plan { offsets: (0..n).collect(), alpha: vec![true; n], digest: vec![true; n], full: true, text: seed.text, entries: seed.entries.len() };
+        }
+        let b = seeds::boundary_offsets(&seed.bytes);
+        let msg = is_message(seed);
+        if self.thorough && n <= THOROUGH_FULL_LIMIT {
+            let mut is_b = vec![false; n];
+            for &o in &b {
+                is_b[o] = true;
+            }
+            let alpha = if n <= THOROUGH_ALPHA_LIMIT { vec![true; n] } else { is_b.clone() };
+            let digest = if msg { vec![false; n] } else { is_b };
+            return Plan { offsets: (0..n).collect(), alpha, digest, full: true, text: seed.text, entries: seed.entries.len() };
+        }
+        // item boundaries only
+        let stride = if self.thorough { 1 } else { (n / QUICK_STRIDE_UNIT).max(1) };
+        let last = b.len().saturating_sub(1);
+        let offsets: Vec<usize> = b.iter().enumerate().filter(|(i, _)| i % stride == 0 || *i == last).map(|x| *x.1).collect();
+        let dstride = if self.thorough { 16 } else { 1 };
+        let digest = (0..offsets.len()).map(|i| !msg && i % dstride == 0).collect();
+        Plan { alpha: vec![true; offsets.len()], digest, offsets, full: false, text: seed.text, entries: seed.entries.len() }
     }
     /// Maximum nesting depth of splice cut points per family.
     pub fn splice_depth(&self, family: &str) -> u32 {
@@ -204,26 +241,22 @@ impl Tuning {
     /// Seeds of a family that take part in splices.
     pub fn splice_member(&self, seed: &Seed) -> bool {
         // chunk-file blocks (hundreds of same-era blocks) are not spliced
-        !(seed.family == "block" && seed.name.contains(".chunk#"))
+        !is_chunk_block(seed)
     }
-}
-
-pub const THOROUGH_FULL_LIMIT: usize = 200 * 1024;
-
-/// Quick-tier stride over the boundary offsets of a seed larger than 4 KiB.
-pub fn quick_stride(seed: &Seed) -> usize {
-    if seed.family == "block" {
-        if seed.name.contains(".chunk#") {
-            QUICK_STRIDE_CHUNK_BLOCK
-        } else {
-            QUICK_STRIDE_BLOCK
+    /// Maximum number of splice representatives of a family.
+    pub fn splice_cap(&self, family: &str) -> usize {
+        match family {
+            "addr-text" => {
+                if self.thorough {
+                    24
+                } else {
+                    12
+                }
+            }
+            _ => 40,
         }
-    } else {
-        1
     }
 }
-pub const QUICK_STRIDE_BLOCK: usize = 1;
-pub const QUICK_STRIDE_CHUNK_BLOCK: usize = 1;
 
 /// Byte string number `i` of the enumeration of all strings of length <= 2.
 pub const SHORT_COUNT: u64 = 1 + 256 + 65536;
